@@ -234,6 +234,30 @@ def step (d : DState) (opLine : String) (impl : String) : DState × StepOut :=
       ({ d with model := s', spec := spec', chaos := d.chaos || !treesOrdered s' },
         { model := if d.chaos then impl else "ok", fails := fails })
     | none => ({ d with spec := spec' }, { model := if d.chaos then impl else "absent", fails := fails })
+  | "rmstale" :: spec =>
+    match parseHeartbeat spec with
+    | none => (d, { model := "bad-op" })
+    | some hb =>
+      -- RemoveRegion with an older RegionInfo of the id.  The specification's answer is plain removal of the id,
+      -- provided the old object still describes where the region is indexed: same id, key range and size as the
+      -- region served now and the same stores (that is the DropCacheRegion race: roles / leader / pending may have
+      -- changed in between).  Anything else is treated like the malformed stream.
+      let old := regionFromHeartbeat hb
+      let s' := removeRegion d.model old
+      let stores := fun (r : Region) => (r.peers.map (·.store)) ++ (r.pending.map (·.store))
+      let fits := match C07.get d.spec old.id with
+        | some cur => cur.startKey = old.startKey && cur.endKey = old.endKey && cur.size = old.size &&
+            (stores cur).all (fun st => (old.peers.map (·.store)).contains st) && decide (C07.WF old)
+        | none => false
+      let dirty := d.dirty || !fits
+      let mGet := renderOptId (getRegion s' old.id)
+      let mListed := (old.peers.map (·.store)).eraseDups.filter (fun st => (storeRegions s' st).any (fun r => r.id = old.id))
+      let m := s!"ok get={mGet} listed={joinOr (mListed.map toString)}"
+      let expect := "ok get=nil listed=-"
+      let fails := if dirty || impl = expect then [] else
+        [s!"sig=C07.removed-region-still-indexed id={old.id} got={impl}"]
+      ({ d with model := s', spec := C07.remove d.spec old.id, dirty := dirty, chaos := d.chaos || !treesOrdered s' },
+        { model := if d.chaos then impl else m, fails := fails })
   | "rmobj" :: spec =>
     match parseHeartbeat spec with
     | none => (d, { model := "bad-op" })
